@@ -23,6 +23,7 @@ from sa.facts import guard_facts
 from sa.repo import AnalysisError
 
 SIMP = "miasm/expression/simplifications.py"
+HELP = "miasm/expression/expression_helper.py"
 LEVEL_TEXT = ("Registry integrity; flow-sensitive node-kind must-analysis over every pass for class-specific attribute reads; "
               "symbolic guard check for every constant-narrowing site (exact bound vs off-by-one vs none); contradiction "
               "lint for two-sided collapses; bound analysis for Python-level ** and <<; loop/caching structure of the "
@@ -65,6 +66,7 @@ def run(ck):
     ck.rule("R5", "Python-level ** and << on integers taken from expressions are bounded", floor=2)
     ck.rule("R7", "a Python-level sum/product/shift of operand constants re-encoded with ExprInt is not used where wrapping modulo 2^size changes the value (shift/rotate counts, division, comparison)", floor=1)
     ck.rule("R6", "pass loop stops on class change; enable_passes clears the cache", floor=3)
+    ck.rule("R8", "two constants fused into one ExprInt are concatenated at the low part's width and the result has the sum of both widths", floor=1)
 
     tables = pass_tables(ck)
     sm = ck.repo.mod(SIMP)
@@ -111,6 +113,14 @@ def run(ck):
             _r4(ck, m, q, f)
             _r4b(ck, m, q, f)
             n7 += _r7(ck, m, q, f)
+    # R8 over the passes' modules and the helper module they call into
+    n8 = 0
+    for rel in sorted(set(p[2] for p in passes) | set([HELP])):
+        m = ck.repo.mod(rel)
+        for q, f in sorted(m.funcs.items()):
+            if "." not in q:
+                n8 += _r8(ck, m, q, f)
+    ck.need(n8 >= 1, "R8: no constant concatenation site found (merge_sliceto_slice moved?)")
     # positive/negative fixtures for R7 (its instance count on a correct tree may be zero)
     fx = ast.parse(_R7_FIXTURE)
     for node in ast.walk(fx):
@@ -177,6 +187,59 @@ def reduced(e_s, expr):
 # operators whose operand may not be replaced by a value congruent modulo 2^size
 _WRAP_SENSITIVE = set(["<<", ">>", "a>>", "<<<", ">>>", "udiv", "umod", "sdiv", "smod", "/", "%", "idiv", "imod",
                        "<u", "<=u", "<s", "<=s", "==", "**"])
+
+
+def _r8(ck, m, q, f):
+    """ExprInt(V, S) where V = int(L) | (int(H) << K) (through straight-line temporaries): K == L.size and S == L.size + H.size.
+    A shift by anything else (an absolute offset of H in a larger composition, H's own width) misplaces the high part."""
+    from sa.astutil import straightline_env, linear
+    n = 0
+    for blk in [x for x in ast.walk(f) if isinstance(getattr(x, "body", None), list)]:
+        for fld in ("body", "orelse"):
+            stmts = getattr(blk, fld, None)
+            if not isinstance(stmts, list) or not stmts:
+                continue
+            for i, st in enumerate(stmts):
+                for c in walk_local(st):
+                    if not (isinstance(c, ast.Call) and (dotted(c.func) or "").split(".")[-1] == "ExprInt" and c.args):
+                        continue
+                    if getattr(c, "_r8_done", False):
+                        continue
+                    env = straightline_env(stmts[:i])
+                    class _T(ast.NodeTransformer):
+                        def visit_Name(self, nm):
+                            if isinstance(nm.ctx, ast.Load) and nm.id in env:
+                                return env[nm.id]
+                            return nm
+                    from sa.astutil import clone
+                    v = _T().visit(clone(c.args[0]))
+                    sz = c.args[1] if len(c.args) > 1 else next((k.value for k in c.keywords if k.arg == "size"), None)
+                    if sz is None:
+                        continue
+                    sz = _T().visit(clone(sz))
+                    terms = []
+
+                    def flat(e):
+                        if isinstance(e, ast.BinOp) and isinstance(e.op, (ast.BitOr, ast.Add)):
+                            flat(e.left)
+                            flat(e.right)
+                        else:
+                            terms.append(e)
+                    flat(v)
+                    lows = [t for t in terms if isinstance(t, ast.Call) and dotted(t.func) == "int" and len(t.args) == 1]
+                    highs = [t for t in terms if isinstance(t, ast.BinOp) and isinstance(t.op, ast.LShift) and isinstance(t.left, ast.Call)
+                             and dotted(t.left.func) == "int" and len(t.left.args) == 1]
+                    if len(terms) != 2 or len(lows) != 1 or len(highs) != 1:
+                        continue
+                    c._r8_done = True
+                    n += 1
+                    L, H, K = norm(lows[0].args[0]), norm(highs[0].left.args[0]), highs[0].right
+                    okk = linear(K) == (frozenset([("%s.size" % L, 1)]), 0)
+                    oks = linear(sz) == (frozenset([("%s.size" % L, 1), ("%s.size" % H, 1)]), 0)
+                    ck.ob("R8", "%s:ExprInt(int(%s)|int(%s)<<...)" % (q, L, H), okk and oks, m.where(c),
+                          "the constants %s (low) and %s (high) are fused with shift `%s` and width `%s`: the high part must be shifted by "
+                          "%s.size and the result be %s.size + %s.size wide" % (L, H, norm(K), norm(sz), L, L, H))
+    return n
 
 
 def _py_int_source(n):
